@@ -153,6 +153,27 @@ def check(P: Project, R: Report) -> None:
     send = posters[0]
     R.fn(send.fq)
     routers = [f for f in meths.values() if any(isinstance(x, ast.Call) and call_name(x) in incoming_send_calls(P, ci) for x in walk_local(f.node))]
+    # in order: a message that does not fit is waited for, not parked for another task to deliver later — a non-blocking
+    # send whose "full" arm stores the message lets the messages that arrive afterwards take the slots that free up first
+    R.rule("R8", "server messages reach the read stream in arrival order: the router's send is awaited where the message was parsed; a non-blocking send whose `WouldBlock` arm keeps the message for later (a backlog, a queue, a task) is a finding — whatever is delivered later can be overtaken")
+    send_attr = "self." + stream_roles(P, ci)["incoming_send"] if "incoming_send" in stream_roles(P, ci) else None
+    parked = []
+    for f in meths.values():
+        for t in walk_local(f.node):
+            if not isinstance(t, ast.Try):
+                continue
+            nowaits = [c for s_ in t.body for c in walk_local(s_) if isinstance(c, ast.Call) and call_name(c).endswith(".send_nowait") and (send_attr is None or call_name(c).startswith(send_attr))]
+            if not nowaits:
+                continue
+            for h in t.handlers:
+                if h.type is not None and "WouldBlock" in ast.unparse(h.type):
+                    keeps = [c for s_ in h.body for c in walk_local(s_) if isinstance(c, ast.Call) and isinstance(c.func, ast.Attribute) and c.func.attr in ("append", "appendleft", "put_nowait", "put", "extend") and any(isinstance(a, ast.Name) and a.id in {x.id for n_ in nowaits for x in ast.walk(n_) if isinstance(x, ast.Name)} for a in c.args)]
+                    for k in keeps:
+                        parked.append((f, k))
+    for f, k in parked:
+        R.ob("R8", f"{f.qual}: a message that does not fit on the read stream is waited for, not parked", False, f"{f.module.rel}:{k.lineno}",
+             f"`{ast.unparse(k)[:60]}` keeps the message for later delivery when the stream is full: once the consumer frees a slot, a message parsed afterwards is sent with send_nowait straight away and arrives before the parked ones — the read stream no longer shows the server's order")
+    R.ob("R8", "no carrier method parks inbound messages for later delivery", not parked, f"{P.module(A.MOD_SSE).rel}:1", f"{len(parked)} parking site(s)", sample="R8 inbound messages are delivered by an awaited send where they were parsed")
     R.need(len(routers) == 1, "anchor: router onto the incoming stream not found")
     router = routers[0]
     R.ob("R3", "the router is contained", contained(P, router), router.where, "a routing failure would reach the send routine's handler and be answered a second time")
